@@ -1059,7 +1059,14 @@ def dirlen(pid):
                 if short not in shrink or "Vec" not in c.name or not c.term["args"]:
                     continue
                 pr = pr or Prov(f)
-                if not pr.operand(c.term["args"][0]).endswith(".dir_entries"):
+                a0_ = pr.operand(c.term["args"][0])
+                # ... nor the vector that is about to become the table (what open_internal read from the chain, one
+                # element per slot, and hands to Directory::new)
+                handed = set()
+                for c9 in v.calls.values():
+                    if c9.name.endswith("Directory::<F>::new"):
+                        handed |= {pr.operand(a9) for a9 in c9.term["args"] if re.match(r"^var:\w+$", pr.operand(a9))}
+                if not a0_.endswith(".dir_entries") and a0_ not in handed:
                     continue
                 n += 1
                 res.fail(Finding(res.rule, "R-DIRLEN/%s/%s" % (f.path, short), "%s shortens the entry table with Vec::%s: the table no longer has one element per slot of the directory chain, so allocate_dir_entry extends the chain although it has room (a sector is appended per cycle) or slot ids stop matching file offsets" % (f.path.split("::")[-1], short), f, c.term["span"]))
@@ -3104,5 +3111,66 @@ def setlenguard(pid):
                 else:
                     res.ok({"function": f.path, "line": c.line}, nontrivial=True)
         res.floor("set_len calls in the stream layer", n, ctx.table("floors").get("setlenguard_sites", 0))
+        return res
+    return run
+
+
+def walkall(pid):
+    """R-WALKALL: Directory::validate walks the tree from the root and checks, for every entry it reaches, that the
+    entry's sibling and child links stay inside the table and do not loop.  The iterators and the lookup follow those
+    same links later without looking again.  So in the walk loop every entry that is popped has its links read and
+    judged before the loop goes round: no `continue` (a tolerated kind of entry, a fast path) leads from the pop back
+    to the head of the loop past the reads of left_sibling and right_sibling."""
+    def run(ctx):
+        from cfg import natural_loops
+        res = RuleResult("R-WALKALL(%s)" % pid, "in the walk loop of Directory::validate every way from the pop of an entry back to the head of the loop passes the reads of that entry's left_sibling and right_sibling (or an error exit)")
+        f = ctx.fx.fns.get("internal::directory::Directory::<F>::validate")
+        if f is None:
+            res.gone.append("Directory::validate")
+            return res
+        v = view(ctx, f)
+        pg = v.pg
+        n = 0
+        pops = [(bb, c) for bb, c in v.calls.items() if re.search(r"Vec::<T, A>::pop$|VecDeque::<T, A>::pop_(front|back)$", c.name)]
+        reads = {"left_sibling": set(), "right_sibling": set()}
+        for bb, blk in enumerate(f.blocks):
+            if blk["cleanup"]:
+                continue
+            for i, st in enumerate(blk["stmts"]):
+                if st["s"] != "assign":
+                    continue
+                rv = st["rv"]
+                pls = [rv[k]["place"] for k in ("op", "a", "b") if isinstance(rv.get(k), dict) and rv[k].get("k") in ("copy", "move")]
+                if isinstance(rv.get("place"), dict):
+                    pls.append(rv["place"])
+                for pl in pls:
+                    for e in pl.get("proj", []):
+                        if e.get("p") == "field" and e.get("name") in reads:
+                            reads[e["name"]].add(("s", bb, i))
+        loops = natural_loops(f)
+        for bb, c in pops:
+            mine = [(h, body, back) for (h, body, back) in loops if bb in body]
+            if not mine:
+                continue
+            h, body, back = min(mine, key=lambda x: len(x[1]))
+            n += 1
+            starts = v.ok_nodes(bb) or list(pg.succ[("t", bb)])
+            errs = set(v.all_err_nodes())
+            bad = None
+            for fld, nodes in reads.items():
+                if not nodes:
+                    bad = "the walk never reads %s" % fld
+                    break
+                r_ = pg.reach(starts, nodes | errs | {("t", bb)})
+                # going round: reaching the pop's own block again (the next iteration) without the read
+                again = [p_ for p_ in pg.pred.get(("t", bb), ()) if p_ in r_]
+                if again:
+                    bad = "an entry can be popped and the loop can go round without its %s being read (a kind of entry that is skipped): its links are followed later by the iterators and the lookup, unchecked" % fld
+                    break
+            if bad:
+                res.fail(Finding(res.rule, "R-WALKALL/%s/entry-skipped" % f.path, "Directory::validate: %s" % bad, f, c.term["span"]))
+            else:
+                res.ok({"function": f.path, "pop_line": c.line, "link_reads": {k: len(x) for k, x in reads.items()}}, nontrivial=True)
+        res.floor("walk loops", n, ctx.table("floors").get("walkall_loops", 0))
         return res
     return run
